@@ -6,6 +6,7 @@ import logging
 import multiprocessing
 import os
 import shutil
+import signal
 import socket
 import struct
 import tempfile
@@ -36,13 +37,21 @@ def open_fds():
         return set()
 
 
-def make_service(events):
+def make_service(events, slow_disconnect=0.0, slow_init=0.0):
     """service whose instances carry a per-connection token and private state; events records hooks"""
     import rpyc
     counter = itertools.count(1)
     lock = threading.Lock()
 
     class Svc(rpyc.Service):
+        def __init__(self):
+            if slow_init:
+                time.sleep(slow_init)             # a service whose construction takes its time (other clients arrive meanwhile)
+
+        def exposed_config(self):
+            cfg = self.conn._config
+            return (cfg.get("credentials"), cfg.get("endpoints"))
+
         def on_connect(self, conn):
             with lock:
                 # the pid keeps tokens distinct under the forking server (each child has its own copy of the counter)
@@ -53,6 +62,8 @@ def make_service(events):
 
         def on_disconnect(self, conn):
             events.append(("disconnect", getattr(self, "token", None)))
+            if slow_disconnect:
+                time.sleep(slow_disconnect)       # an application hook that takes its time (other clients arrive meanwhile)
 
         def exposed_whoami(self):
             return self.token
@@ -97,7 +108,12 @@ def magic_authenticator(sock):
             pass
     if got != MAGIC:
         raise AuthenticationError("wrong magic word")
-    return sock, "authenticated"
+    # per-client credentials: who the client is, as far as the server can tell
+    try:
+        who = sock.getpeername()
+    except (socket.error, OSError):
+        who = None
+    return sock, "authenticated:%r" % (who,)
 
 
 def _die_with_parent():
@@ -108,6 +124,22 @@ def _die_with_parent():
         ctypes.CDLL("libc.so.6", use_errno=True).prctl(1, signal.SIGKILL)
     except Exception:
         pass
+
+
+def _children_states(ppid):
+    """state letters (R, S, Z, ...) of the direct children of process `ppid`"""
+    out = []
+    for d in os.listdir("/proc"):
+        if not d.isdigit():
+            continue
+        try:
+            with open("/proc/%s/stat" % d) as f:
+                rest = f.read().rsplit(")", 1)[1].split()
+        except (IOError, OSError, IndexError):
+            continue
+        if int(rest[1]) == ppid:
+            out.append(rest[0])
+    return out
 
 
 def _forking_main(conn_pipe, kind_kwargs, auth, socket_path):
@@ -127,6 +159,13 @@ def _forking_main(conn_pipe, kind_kwargs, auth, socket_path):
     else:
         srv = ForkingServer(Svc, hostname="127.0.0.1", port=0, **kw)
     srv._listen()
+    if kind_kwargs.get("gate_sigchld"):
+        # hold back child-exit notifications (every thread started from here inherits the mask) until "unblock": several
+        # children can then have exited before the server is told once
+        signal.pthread_sigmask(signal.SIG_BLOCK, {signal.SIGCHLD})
+        # "unblock" must lift the mask in THIS (the main) thread, where a process normally receives SIGCHLD and where the
+        # interpreter runs signal handlers: the control thread pokes it with SIGUSR1
+        signal.signal(signal.SIGUSR1, lambda *a: signal.pthread_sigmask(signal.SIG_UNBLOCK, {signal.SIGCHLD}))
     conn_pipe.send(("ready", srv.port))
 
     state = {"phase": "serving"}
@@ -158,6 +197,11 @@ def _forking_main(conn_pipe, kind_kwargs, auth, socket_path):
                 conn_pipe.send(("alive", srv.active))
             elif msg == "fds":
                 conn_pipe.send(("fds", len(os.listdir("/proc/self/fd"))))
+            elif msg == "children":
+                conn_pipe.send(("children", _children_states(os.getpid())))
+            elif msg == "unblock":
+                signal.pthread_kill(threading.main_thread().ident, signal.SIGUSR1)
+                conn_pipe.send(("unblock", None))
             elif msg == "exit":
                 os._exit(0)
     t = threading.Thread(target=control)
@@ -186,7 +230,7 @@ def _forking_main(conn_pipe, kind_kwargs, auth, socket_path):
 
 
 class Fixture(object):
-    def __init__(self, kind, transport="tcp", auth=False):
+    def __init__(self, kind, transport="tcp", auth=False, gate_sigchld=False, slow_disconnect=0.0, slow_init=0.0):
         import rpyc
         # per-client server threads that die of a hostile client's input would print their traceback; keep logs readable
         threading.excepthook = lambda args: None
@@ -205,7 +249,7 @@ class Fixture(object):
             self.socket_path = os.path.join(self.tmp, "s")
         if kind == "forking":
             self.pipe, child = multiprocessing.get_context("fork").Pipe()
-            self.proc = multiprocessing.get_context("fork").Process(target=_forking_main, args=(child, {}, auth, self.socket_path))
+            self.proc = multiprocessing.get_context("fork").Process(target=_forking_main, args=(child, {"gate_sigchld": gate_sigchld}, auth, self.socket_path))
             self.proc.daemon = True
             self.proc.start()
             if not self.pipe.poll(BOUND):
@@ -214,7 +258,7 @@ class Fixture(object):
             self.port = port
         else:
             cls = {"threaded": S.ThreadedServer, "pool": S.ThreadPoolServer, "oneshot": S.OneShotServer}[kind]
-            self.Svc = make_service(self.events)
+            self.Svc = make_service(self.events, slow_disconnect, slow_init)
             kw = dict(logger=_quiet, auto_register=False, authenticator=magic_authenticator if auth else None, listener_timeout=0.05)
             if kind == "pool":
                 kw["nbThreads"] = 4
@@ -268,6 +312,44 @@ class Fixture(object):
             return "close() did not return within %ss" % BOUND
         return err[0] if err else None
 
+    def arm_close_during_accept(self):
+        """in-process servers: the NEXT connection the listener hands out is held back until server.close() has run to
+        completion in another thread (the accept loop sees it only afterwards).  returns an object with .done / .err"""
+        srv = self.server
+        real = srv.listener
+
+        class HeldListener(object):
+            def __init__(self):
+                self.armed = True
+                self.done = threading.Event()
+                self.entered = threading.Event()
+                self.err = None
+
+            def accept(self):
+                self.entered.set()
+                got = real.accept()
+                if self.armed:
+                    self.armed = False
+                    errs = []
+
+                    def run():
+                        try:
+                            srv.close()
+                        except Exception as ex:
+                            errs.append(repr(ex))
+                    t = threading.Thread(target=run)
+                    t.daemon = True
+                    t.start()
+                    t.join(BOUND)
+                    self.err = "close() did not return within %ss" % BOUND if t.is_alive() else (errs[0] if errs else None)
+                    self.done.set()
+                return got
+
+            def __getattr__(self, name):
+                return getattr(real, name)
+        srv.listener = HeldListener()
+        return srv.listener
+
     def close_again(self):
         if self.kind == "forking":
             self.pipe.send("close2")
@@ -283,6 +365,12 @@ class Fixture(object):
     def helper_fds(self):
         """number of open descriptors in the forking server's parent process"""
         self.pipe.send("fds")
+        if not self.pipe.poll(BOUND):
+            return None
+        return self.pipe.recv()[1]
+
+    def helper_cmd(self, msg):
+        self.pipe.send(msg)
         if not self.pipe.poll(BOUND):
             return None
         return self.pipe.recv()[1]
